@@ -335,12 +335,14 @@ func (p *parser) readString() (string, error) {
 					if b == '"' {
 						return buf.String(), nil
 					}
+					// The byte after the quotes is not part of them, it can
+					// be the start of an escape.
 					buf.WriteByte('"')
 					buf.WriteByte('"')
-					buf.WriteByte(b)
+					p.putBack(b)
 				} else {
 					buf.WriteByte('"')
-					buf.WriteByte(b)
+					p.putBack(b)
 				}
 			case '\\':
 				var r rune
